@@ -177,6 +177,22 @@ Definition scalar_hex_chars (v : N) : option nat := digit_loop 64 16 v.
 Definition atof_written (i len : N) : Prop := atof_loop_test i len = true \/ i = len.
 
 (* ---------------------------------------------------------------------------------------------
+   writers (XalanUTF8Writer / XalanUTF16Writer / XalanOtherEncodingWriter): a guarded store run
+       if (m_bufferRemaining < k) flushBuffer();   n stores *m_bufferPosition++ = ...;   m_bufferRemaining -= d;
+   on a buffer of [size] units with [r] units remaining (m_bufferPosition = m_buffer + (size - r)).
+   flushBuffer() resets the position to m_buffer and the count to size (anchored by the translator).
+   Result: None when a store would fall outside m_buffer[0 .. size) or the unsigned counter would wrap,
+   else the new count. *)
+Definition run_indices (size r n : N) : list N := map (fun j => size - r + N.of_nat j)%N (seq 0 (N.to_nat n)).
+
+Definition guarded_run (size k n d r : N) : option N :=
+  let r' := if (r <? k)%N then size else r in
+  if forallb (fun i => (i <? size)%N) (run_indices size r' n) && (d <=? r')%N then Some (r' - d)%N else None.
+
+Definition writer_size (cls : string) : N :=
+  match find (fun e => String.eqb (fst e) cls) writer_buffers with Some e => snd e | None => 0%N end.
+
+(* ---------------------------------------------------------------------------------------------
    XPathProcessorImpl::tokenize, scan for the closing quote:
        for(++i; test i nChars && (c = pat[i]) != quote; ++i);
    scan_reads lists the indices of pat that are read, starting at i (already incremented). *)
